@@ -321,6 +321,9 @@ func (b *builder) segment(n int) {
 			b.pushOperand("lit")
 		case k == 2 && b.genesis && b.nest > 0 && rapid.IntRange(0, 3).Draw(t, "ret_in") == 0:
 			b.emit(0x6a) // OP_RETURN inside a conditional
+		case k == 3 && b.nest > 0 && rapid.IntRange(0, 2).Draw(t, "verif_in") == 0:
+			// reserved branching opcodes: fine post-genesis as long as the branch is dead
+			b.emit(byte(0x65 + rapid.IntRange(0, 1).Draw(t, "vernotif")))
 		default:
 			b.op(NonSigOps[rapid.IntRange(0, len(NonSigOps)-1).Draw(t, "op")])
 		}
